@@ -431,7 +431,8 @@ def check_layout(lines, e, h36, cl):
         return "CRYST1", "written although the structure has no box"
     ids = e["atom_id"] if e["atom_id"] is not None else list(range(1, e["n"] + 1))
     for mm in range(e["m"]):
-        if e["m"] > 1:
+        framed = e["m"] > 1 or (i < len(rows) and rows[i].startswith("MODEL "))  # optional for a single model
+        if framed:
             if i >= len(rows) or not rows[i].startswith("MODEL "):
                 return "MODEL", "missing for model %d" % (mm + 1)
             try:
@@ -448,7 +449,7 @@ def check_layout(lines, e, h36, cl):
             if bad:
                 return bad
             i += 1
-        if e["m"] > 1:
+        if framed:
             if i >= len(rows) or not rows[i].startswith("ENDMDL"):
                 return "ENDMDL", "missing"
             i += 1
@@ -499,7 +500,7 @@ def check_atom_line(line, e, mm, p, aid, h36, cl):
     if e["charge"] is not None:
         c = e["charge"][p]
         want = "  " if c == 0 else "%d%s" % (abs(c), "+" if c > 0 else "-")
-        if f["charge"] != want:
+        if f["charge"] != want and not (c == 0 and f["charge"] in ("0+", "0-")):
             return "charge", "%r is not %r" % (f["charge"], want)
     return None
 
@@ -681,7 +682,7 @@ def minimise(case, pal, memo):
 
 
 def report(ctx, case, res, pal, memo):
-    if len(case["devs"]) > 1 or case["h36"]:
+    if case["devs"] or case["h36"]:
         small = minimise(case, pal, memo)
         if small is not case:
             case = small
